@@ -144,7 +144,7 @@ func C02(tier string) int {
 		"traces_validated_against_impl": r1.Transitions + r2.Transitions,
 		"evaluations":                   r1.Transitions + r2.Transitions,
 		"distinct_nontrivial":           r1.States + r2.States,
-		"rule":                          "BFS over the real signer stack; a state is (raw records of the keys, highest released proposal slot per key, set of released attestations); every distinct state is non-trivial; invariant: per key the slots of released proposals strictly increase in issue order; every released signature of a new transition must be the addressed account's signature over the independently computed signing root",
+		"rule":                          "BFS over the real signer stack (a history may begin with an old-format record for slot 0, 1 or 5; on two keys proposals at slots 0 and 1 are also served while the store refuses writes); a state is (raw records of the keys, highest released proposal slot per key, set of released attestations); every distinct state is non-trivial; invariant: per key the slots of released proposals strictly increase in issue order; every released signature of a new transition must be the addressed account's signature over the independently computed signing root",
 		"samples":                       append(st1.samples.List(), st2.samples.List()...),
 		"exhaustive":                    !r1.BudgetHit && !r2.BudgetHit,
 		"single_key_closure": map[string]any{"ops_per_state": len(ops1) + 1, "slots": fmtU(E), "states": r1.States, "transitions": r1.Transitions,
